@@ -16,6 +16,7 @@ func init() {
 	specs = append(specs,
 		LLSpec{File: "c05.c", Func: "harness_split_f8", Params: map[string]int{"N": 10, "SPLITS": 1}, ParamsT: map[string]int{"N": 11, "SPLITS": 2}, Reach: []string{"split/done"}},
 		LLSpec{File: "c05.c", Func: "harness_split_f6", Params: map[string]int{"N": 7, "STEPS": 10}, ParamsT: map[string]int{"N": 8, "STEPS": 12}, Reach: []string{"split/done"}},
+		LLSpec{File: "c05.c", Func: "harness_split_f9", Params: map[string]int{"N": 4, "STEPS": 12}, ParamsT: map[string]int{"N": 5, "STEPS": 16}, Reach: []string{"split/done"}},
 		LLSpec{File: "c05.c", Func: "harness_split_transform", Params: map[string]int{"N": 9, "STEPS": 8}, ParamsT: map[string]int{"N": 10, "STEPS": 10}, Reach: []string{"split/done"}},
 		LLSpec{File: "c05.c", Func: "harness_split_adler32", Tier: "thorough", Params: map[string]int{"N": 2}, Reach: []string{"split/done"}},
 	)
